@@ -63,7 +63,7 @@ func keyOf(m *base.MetricItem) string {
 
 func exact(m *base.MetricItem, it item) bool {
 	return int64(m.Timestamp) == it.sec*1000 && m.Resource == it.res && m.PassQps == it.n && m.BlockQps == it.n+1 && m.CompleteQps == it.n+2 &&
-		m.ErrorQps == it.n+3 && m.AvgRt == it.n+34 && m.OccupiedPassQps == 0 && m.Concurrency == uint32(it.n+5) && m.Classification == 1
+		m.ErrorQps == it.n+3 && m.AvgRt == it.n+34 && m.OccupiedPassQps == 0 && m.Concurrency == uint32(it.n+5) && m.Classification == 12
 }
 
 type world struct {
@@ -121,7 +121,7 @@ func build(root string, cfg Config, hist []int) (*world, string) {
 		for b := 0; b < op.Batch; b++ {
 			res := []string{"A", "B"}[b]
 			n += 10
-			batch = append(batch, &base.MetricItem{Resource: res, Classification: 1, PassQps: n, BlockQps: n + 1, CompleteQps: n + 2, ErrorQps: n + 3, AvgRt: n + 34, Concurrency: uint32(n + 5)})
+			batch = append(batch, &base.MetricItem{Resource: res, Classification: 12, PassQps: n, BlockQps: n + 1, CompleteQps: n + 2, ErrorQps: n + 3, AvgRt: n + 34, Concurrency: uint32(n + 5)})
 			its = append(its, item{sec: sec, res: res, n: n})
 		}
 		before := map[string]string{}
